@@ -266,7 +266,10 @@ impl<'a> BlockFiltersProcess<'a> {
                     );
                 }
             }
-        } else if matched_blocks.is_empty() {
+        } else if matched_blocks.is_empty()
+            && self.filter.storage.get_earliest_matched_blocks().is_none()
+        {
+            // (the matched blocks in memory are not recovered yet after a restart or a fork)
             self.filter
                 .storage
                 .update_block_number(filtered_block_number)
